@@ -632,6 +632,9 @@ def op_host_value_contradicts(doc, info, rng):
 def op_fw_rule_missing(doc, info, rng):
     out = []
     for k in list(doc["firewall"].keys()):
+        a, b = parse_addr(k)
+        if doc["topology"][a][b] != 1:
+            continue    # a rule for an unconnected pair is not required
         d = _cp(doc)
         del d["firewall"][k]
         out.append((k, d))
